@@ -28,7 +28,9 @@ def gen_cases(fam, tier):
         for k, (owner, a, redecl) in enumerate(pa):
             if redecl:
                 continue
-            for form, lit in (('$', '$'), ('empty', '')):
+            # the unset marker in every lexical dress the grammar allows: white space and comments may follow and precede any token
+            for form, lit in (('$', '$'), ('empty', ''), ('$+blank', '$ '), ('blank+$', ' $'), ('$+comment', '$/* c */'), ('$+blank+comment', '$ /* not set */ '),
+                              ('comment+$', '/* c */$'), ('$+newline', '$\n'), ('empty:blank', ' '), ('empty:comment', '/* c */')):
                 p = list(base)
                 p[k] = lit
                 yield {'ent': ename, 'form': form, 'attr': k, 'owner': owner, 'text': sp.file([smodel.inst_text(10, E, p)]), 'complex': False}
@@ -43,9 +45,10 @@ def gen_cases(fam, tier):
                 for k, a in enumerate(ents[n].attrs):
                     if (n, a.name) in redecl:
                         continue
-                    v = {m: list(x) for m, x in defaults.items()}
-                    v[n][k] = '$'
-                    yield {'ent': ename, 'form': '$', 'attr': k, 'part': n, 'text': sp.file([mk(v)]), 'complex': True}
+                    for form, lit in (('$', '$'), ('$+blank+comment', '$ /* not set */ ')):
+                        v = {m: list(x) for m, x in defaults.items()}
+                        v[n][k] = lit
+                        yield {'ent': ename, 'form': form, 'attr': k, 'part': n, 'text': sp.file([mk(v)]), 'complex': True}
 
 
 def attr_of(fam, case):
@@ -155,11 +158,23 @@ def main():
                 bad.add((c['ent'], c['complex']))
         chk.extra.setdefault('entities_with_failing_base', {})[fam.name] = sorted('%s%s' % (e, '(complex)' if cx else '') for e, cx in bad)
         p21todo = []
+        # verdict keys of the plain forms ('$', 'empty'): a dressed form ('$ /* c */') that fails the same way is the same finding
+        plain = {}
+        for c, r in zip(cases, results):
+            if c['form'] in ('$', 'empty') and (c['ent'], c['complex']) not in bad:
+                plain[(c['ent'], c['attr'], c.get('part'), c['complex'], c['strict'], c['form'])] = set(k for k, _ in judge(fam, c, r, c['strict']))
         for c, r in zip(cases, results):
             if (c['ent'], c['complex']) in bad:
                 continue
             chk.count(states=1, transitions=1)
+            dress = None
+            if c['form'] not in ('none', '$', 'empty'):
+                dress = c['form']
+                c = dict(c, form='empty' if dress.startswith('empty') else '$', dress=dress)
             v = judge(fam, c, r, c['strict'])
+            if dress:
+                same = plain.get((c['ent'], c['attr'], c.get('part'), c['complex'], c['strict'], c['form']), set())
+                v = [(k if k in same else '%s/lex:%s' % (k, dress), w + ('' if k in same else ' [only with the marker written %r]' % dress)) for k, w in v]
             if c['form'] != 'none':
                 a = attr_of(fam, c)
                 chk.cls('%s/%s/%s' % ('strict' if c['strict'] else 'lenient', 'optional' if a.optional else 'required', fam.cat(a.type)))
